@@ -527,10 +527,24 @@ impl DirTourist {
 			)
 			.map_err(|err| Error::new(ErrorKind::Other, err))?;
 
+		// VCS metadata directories are never entered, whatever the ignore files found later say
+		let to_skip = [
+			".git",
+			".hg",
+			".bzr",
+			"_darcs",
+			".fossil-settings",
+			".svn",
+			".pijul",
+		]
+		.iter()
+		.map(|name| base.join(name))
+		.collect();
+
 		Ok(Self {
 			to_visit: vec![base.clone()],
 			base,
-			to_skip: HashSet::new(),
+			to_skip,
 			to_explicitly_watch: watch_files.iter().cloned().collect(),
 			errors: Vec::new(),
 			filter,
@@ -606,12 +620,8 @@ impl DirTourist {
 			match entry.file_type().await {
 				Ok(ft) => {
 					if ft.is_dir() {
-						if !self.filter.check_dir(&path) {
-							trace!("path is ignored, adding to skip list");
-							self.skip(path);
-							continue;
-						}
-
+						// whether it is ignored is decided when it is visited: this directory's
+						// own ignore files are not loaded yet and may re-include it
 						trace!("found a dir, adding to list");
 						self.to_visit.push(path);
 					} else {
